@@ -24,11 +24,12 @@ struct Cfg {
     int kind;                  // 0 read all, 1 read k then close, 2 read k then destroy, 3 write all + close, 4 write all + destroy, 5 open/close no traffic (read), 6 same (write)
     std::vector<long> sizes;   // per object: -1 = CanMessage, -2 = LinMessage2 in its version-1/2 layout (shorter than the class's largest layout), >=0 = AppText with that text length
     uint32_t C; long B; uint32_t Q; int level; bool trailer; int k; bool shipped;
+    bool noisy = false;        // write session whose text payloads are high-entropy bytes (deflate cannot shrink them: output larger than input)
     bool devfull = false;      // write session whose output device accepts nothing (/dev/full): every write to the medium fails, the calls must still return
     std::string str() const {
         std::ostringstream s; s << "kind=" << kind << " C=" << C << " B=" << B << " Q=" << Q << " level=" << level << " trailer=" << trailer << " k=" << k << " sizes=[";
         for (size_t i = 0; i < sizes.size(); i++) s << (i ? "," : "") << sizes[i];
-        s << "]" << (devfull ? " output=/dev/full" : ""); return s.str();
+        s << "]" << (devfull ? " output=/dev/full" : "") << (noisy ? " noisy" : ""); return s.str();
     }
     std::string sizeclass() const {   // coarse class for violation keys
         long mx = -1; for (long x : sizes) mx = std::max(mx, x <= -1000 ? -x - 1000 - 48 : x);   // -1/-2 are fixed-size objects, <= -1000 unknown objects of that declared size
@@ -82,6 +83,7 @@ static Cfg make_cfg(uint64_t seed, long ci) {
     int nknown = 0; for (long x : c.sizes) if (x > -1000) nknown++;
     c.k = (c.kind == 1 || c.kind == 2) ? (int)r.below(nknown + 1) : nknown;
     c.devfull = !reading && c.kind != 6 && (ci / 12) % 4 == 1;
+    c.noisy = !reading && r.chance(1, 2);
     return c;
 }
 
@@ -127,6 +129,7 @@ static ObjectHeaderBase * make_object(const Cfg & c, size_t i) {
     if (c.sizes[i] < 0) { CanMessage * m = new CanMessage; m->objectTimeStamp = uid; m->objectFlags = 1; m->channel = 1; m->dlc = 8; m->id = uid; uint64_t d = uid * 0x9E3779B97F4A7C15ULL; memcpy(m->data.data(), &d, 8); return m; }
     AppText * t = new AppText; t->objectTimeStamp = uid; t->objectFlags = 1; t->source = uid; t->text.resize((size_t)c.sizes[i]);
     for (size_t k = 0; k < t->text.size(); k++) t->text[k] = (char)('A' + (uid * 7 + k * 13) % 53);
+    if (c.noisy) { uint64_t x = uid * 0x9E3779B97F4A7C15ULL + 1; for (size_t k = 0; k < t->text.size(); k++) { x ^= x << 13; x ^= x >> 7; x ^= x << 17; t->text[k] = (char)(x >> 32); } }
     return t;
 }
 
